@@ -187,9 +187,11 @@ def check_commands_membership(ctx, shape):
     reg['FastQueue.get_nowait'] = get_nowait_summary_factory(ctx, so, shape)
     I = make_interp(ctx, so, registry=reg, inline={GATE})
     try:
-        kind, v, fr = run_region(I, so, CHECK, loop.body, {'startTime': FreshReal('startTime')})
+        kind, v, fr = run_region(I, so, CHECK, loop.body, {'startTime': FreshReal('startTime')}, loop=loop)
     except (_Break, _Continue):
         kind, v = 'ok', None
+    if kind == 'not-entered':
+        return          # the time budget of the dequeue loop is used up: no round happens
     ctx.prove(kind == 'ok', 'C10:I9.no-exception', info=getattr(v, 'typ', None))
     if kind != 'ok':
         return
